@@ -53,6 +53,15 @@ func genValue(r *fw.Rng) string {
 			for i, n := 0, r.Range(1, 4); i < n; i++ {
 				sb.WriteString(valueWords[r.Intn(len(valueWords))])
 			}
+		case 3: // any octets but the space: NUL, control characters, high bytes
+			n := r.Range(1, 12)
+			for i := 0; i < n; i++ {
+				b := byte(r.Pick(0, 0, 1, 9, 10, 13, 0x1f, 0x7f, 0x80, 0xff, int(r.U32()&0xff)))
+				if b == ' ' {
+					b = '_'
+				}
+				sb.WriteByte(b)
+			}
 		default:
 			n := r.Range(1, 40)
 			for i := 0; i < n; i++ {
